@@ -98,6 +98,48 @@ def prove(hyps, goal, timeout_ms=20000, stats=None):
     return check_sat(list(hyps) + [z3.Not(goal)], timeout_ms, stats)
 
 
+def prove_split(hyps, goal, budget_ms=30000, stats=None, max_cubes=8192, per_ms=5000):
+    """Last rung of the proof ladder: the NEGATED goal is put into cubes (z3 tactics simplify, nnf, split-clause -- the
+    disjunction of the cubes is equivalent to it) and every cube is refuted together with the hypotheses by nlsat.
+    unsat: every cube refuted (a proof); sat: a cube has a model (a model of the original query); else unknown."""
+    t0 = time.time()
+    verdict, model = "unknown", None
+    try:
+        g = z3.Goal()
+        g.add(z3.Not(goal))
+        subs = z3.Then("simplify", "nnf", z3.Repeat(z3.OrElse("split-clause", "skip"), 64))(g)
+        if 0 < len(subs) <= max_cubes:
+            from .explore import guarded_check
+            verdict = "unsat"
+            for sg in subs:
+                left = budget_ms - (time.time() - t0) * 1000
+                if left <= 0:
+                    verdict = "unknown"
+                    break
+                per = int(min(per_ms, max(left, 500)))
+                sv = z3.Then("simplify", "propagate-values", "solve-eqs", "qfnra-nlsat").solver()
+                sv.set("timeout", per)
+                for h in hyps:
+                    sv.add(h)
+                sv.add(sg.as_expr())
+                r = guarded_check(sv, per)
+                if r == z3.sat:
+                    verdict, model = "sat", sv.model()
+                    break
+                if r != z3.unsat:
+                    verdict = "unknown"
+                    break
+    except z3.Z3Exception:
+        verdict, model = "unknown", None
+    dt = time.time() - t0
+    if stats is not None:
+        stats.n += 1
+        stats.time += dt
+        setattr(stats, verdict, getattr(stats, verdict) + 1)
+        stats.split = getattr(stats, "split", 0) + 1
+    return verdict, model, dt
+
+
 def to_smt2(formulas):
     s = z3.Solver()
     for f in formulas:
